@@ -11,7 +11,7 @@ from common import *
 import cryptolib as CL
 import tlslib, json, os
 
-MINONES = {"sm3": 0, "sm9sign": 4, "sm2sign": 4, "cms": 3, "der": 5, "sm9enc": 3, "record": 2, "sm2enc": 3, "sm4gcm": 2, "handshake": 4, "sm4cbc": 2, "x509": 5}
+MINONES = {"sm3": 0, "sm9sign": 4, "sm2sign": 4, "cms": 3, "der": 5, "sm9enc": 3, "record": 2, "sm2enc": 3, "sm4gcm": 2, "handshake": 4, "sm4cbc": 2, "x509": 5, "st-nbrec": 2}
 
 
 def schedules(cfg, every=1, limit=None):
@@ -87,7 +87,7 @@ def body():
             lines.append(k2); meta.append(variant)
             if kw["mode"] != "seq":          # ... and with all threads holding objects of ONE kind under different keys: state hidden per kind shows here
                 nf = kw.pop("_nf", len(lines))
-                fam = nf % 10
+                fam = nf % 11
                 for ln in ({"mode": "seq"}, {}):
                     k3 = dict(kw, work="stream", fam=fam, id=len(lines) + 1, **ln)
                     if ln:
